@@ -43,7 +43,8 @@ def svcOfJson (k : String) (j : Json) : Svc :=
     build := match j.getObjVal? "build" with
       | .ok (.arr a) => some (a.toList.filterMap fun x => match x with | .str s => some s | _ => none)
       | _ => none
-    configs := strsOf j "configs" }
+    configs := strsOf j "configs"
+    env := (objOf j "env").map fun (k, v) => (k, match v with | .str s => some s | _ => none) }
 
 def strMapOf (j : Json) (k : String) : AL String :=
   (objOf j k).filterMap fun (k, v) => match v with | .str s => some (k, s) | _ => none
@@ -55,7 +56,8 @@ def projOfJson (j : Json) : Proj :=
     networks := strMapOf j "networks"
     volumes := strMapOf j "volumes"
     secrets := strMapOf j "secrets"
-    configs := strMapOf j "configs" }
+    configs := strMapOf j "configs"
+    environment := strMapOf j "environment" }
 
 def polOfStr : String → Policy
   | "dependents" => .dependents
@@ -84,7 +86,8 @@ def svcToJson (s : Svc) : Json :=
     ("vols", .arr (s.vols.map fun (t, x) => Json.arr #[.str t, .str x]).toArray),
     ("secrets", strs s.secrets),
     ("build", match s.build with | some l => strs l | none => .null),
-    ("configs", strs s.configs)]
+    ("configs", strs s.configs),
+    ("env", Json.mkObj (s.env.map fun (k, v) => (k, match v with | some x => Json.str x | none => Json.null)))]
 
 def strMapToJson (m : AL String) : Json := Json.mkObj (m.map fun (k, v) => (k, Json.str v))
 
@@ -93,7 +96,8 @@ def projToJson (p : Proj) : Json :=
     ("disabled", Json.mkObj (p.disabled.map fun (k, s) => (k, svcToJson s))),
     ("profiles", strs p.profiles),
     ("networks", strMapToJson p.networks), ("volumes", strMapToJson p.volumes),
-    ("secrets", strMapToJson p.secrets), ("configs", strMapToJson p.configs)]
+    ("secrets", strMapToJson p.secrets), ("configs", strMapToJson p.configs),
+    ("environment", strMapToJson p.environment)]
 
 def outToJson : Out → Json
   | .ok p => Json.mkObj [("ok", projToJson p)]
@@ -104,14 +108,15 @@ def outToJson : Out → Json
 
 def sortAL {α} (m : AL α) : AL α := m.mergeSort (fun a b => decide (a.1 ≤ b.1))
 
-def canonSvc (s : Svc) : Svc := { s with deps := sortAL s.deps, nets := s.nets.mergeSort (fun a b => decide (a ≤ b)) }
+def canonSvc (s : Svc) : Svc := { s with deps := sortAL s.deps, env := sortAL s.env, nets := s.nets.mergeSort (fun a b => decide (a ≤ b)) }
 
 def canon (p : Proj) : Proj :=
   { services := sortAL (p.services.map fun (k, s) => (k, canonSvc s))
     disabled := sortAL (p.disabled.map fun (k, s) => (k, canonSvc s))
     profiles := p.profiles
     networks := sortAL p.networks, volumes := sortAL p.volumes
-    secrets := sortAL p.secrets, configs := sortAL p.configs }
+    secrets := sortAL p.secrets, configs := sortAL p.configs
+    environment := sortAL p.environment }
 
 def insertEverywhere {α} (x : α) : List α → List (List α)
   | [] => [[x]]
